@@ -58,7 +58,7 @@ META = {
 # ------------------------------------------------------------------------------------------
 # scenarios
 # ------------------------------------------------------------------------------------------
-# msg   = [type char, id, own MsgSeqNum or None, possdup, gapfill]
+# msg   = [type char, id, own MsgSeqNum or None, possdup, gapfill(, True: carries 43=N - an ordinary new message for the model)]
 # task  = ["send", [msg..]] | ["hb"] | ["in", kind, ...]   kind: "testreq" | "gap" | "app" | "logon" | "resend", b, e, [declined]
 
 
@@ -104,6 +104,9 @@ def scenarios(tier):
     S.append(scn("resend over holes alone", [["in", "resend", 1, 0, [5]]], pre=[D(1), D(2), HB, D(4), D(5), D(6)], holes=[1, 4]))
     S.append(scn("resend bounded + sender", [["in", "resend", 1, 2, []], ["send", [D(9)]]], pre=[D(1), HB, D(3), D(4)]))
     S.append(scn("resend bounded beyond alone", [["in", "resend", 2, 9, []]], pre=[D(1), D(2), HB]))
+    S.append(scn("resend over a row carrying 43=N + sender", [["in", "resend", 1, 0, []], ["send", [D(9)]]],
+                 pre=[D(1), ["D", 2, None, False, False, True], D(3)]))
+    S.append(scn("resend EndSeqNo 2^64 + sender", [["in", "resend", 2, 2 ** 64, []], ["send", [D(9)]]], pre=[D(1), D(2), HB]))
     S.append(scn("resend + sender", [["in", "resend", 1, 0, []], ["send", [D(9)]]], pre=[D(1), D(2), D(3)]))
     S.append(scn("resend + sender x 2", [["in", "resend", 2, 0, []], ["send", [D(8), D(9)]]], pre=[D(1), D(2), HB]))
     S.append(scn("resend + heartbeat probe", [["in", "resend", 1, 0, []], ["hb"]], pre=[D(1), D(2)]))
@@ -352,6 +355,8 @@ class Impl:
             fm.set(34, str(m[2]))
         if m[3]:
             fm.set(43, "Y")
+        elif len(m) > 5 and m[5]:
+            fm.set(43, "N")
         if m[4]:
             fm.set(123, "Y")
         return fm
